@@ -223,7 +223,8 @@ class RemotePeer:
 class TransferWorld:
 
     def __init__(self, chooser=None, horizon: float = 120.0, deviations: bool = False, settings: Optional[dict] = None,
-                 lazy_exec: bool = False, base_dir: str = None, op_anywhere: bool = False, transfer_cache=None):
+                 lazy_exec: bool = False, base_dir: str = None, op_anywhere: bool = False, transfer_cache=None,
+                 **world_kwargs):
         self.base = base_dir
         self.download_dir = os.path.join(base_dir, 'downloads')
         self.share_dir = os.path.join(base_dir, 'shared')
@@ -234,7 +235,7 @@ class TransferWorld:
         if settings:
             _deep(st, settings)
         self.cw = ClientWorld(chooser=chooser, horizon=horizon, deviations=deviations, settings=st,
-                              lazy_exec=lazy_exec, op_anywhere=op_anywhere, transfer_cache=transfer_cache)
+                              lazy_exec=lazy_exec, op_anywhere=op_anywhere, transfer_cache=transfer_cache, **world_kwargs)
         self.world = self.cw.world
         self.client = self.cw.client
         self.server = self.cw.server
